@@ -1390,6 +1390,52 @@ def run_corpus(rep, drv, rng):
         run_case(rep, drv, rng, d)
 
 
+def check_fresh_container_assignment(rep):
+    """the subtype check on assignment does not depend on whether the assigned container already holds anything: a
+    never-filled container of a tag-compatible but wider type is refused like a filled one, so that filling it later
+    cannot put a value the field rejects into the record; a container of a derived type is accepted"""
+    elem = univ.Integer()
+    F = univ.SequenceOf(componentType=elem).subtype(subtypeSpec=C.ValueSizeConstraint(1, 2))
+    wider = [('unconstrained', univ.SequenceOf(componentType=elem)),
+             ('size-0-8', univ.SequenceOf(componentType=elem).subtype(subtypeSpec=C.ValueSizeConstraint(0, 8)))]
+    derived = [('same', F), ('narrower', F.subtype(subtypeSpec=C.ValueSizeConstraint(1, 1)))]
+    holders = [('seq', lambda: univ.Sequence(componentType=namedtype.NamedTypes(namedtype.NamedType('n', univ.Integer()), namedtype.NamedType('x', F)))),
+               ('set', lambda: univ.Set(componentType=namedtype.NamedTypes(namedtype.NamedType('n', univ.Integer()), namedtype.NamedType('x', F)))),
+               ('choice', lambda: univ.Choice(componentType=namedtype.NamedTypes(namedtype.NamedType('n', univ.Integer()), namedtype.NamedType('x', F))))]
+    for hname, mk in holders:
+        for state in ('fresh', 'cleared', 'filled-3'):
+            for wname, W in wider + derived:
+                for api in ('setitem', 'byname', 'bypos'):
+                    rep.evaluations += 1
+                    rep.count('container-assignments')
+                    case = {'kind': 'fresh-container', 'holder': hname, 'state': state, 'source': wname, 'api': api}
+                    h = mk().clone()
+                    c = W.clone()
+                    if state == 'cleared':
+                        c.clear()
+                    elif state == 'filled-3':
+                        c.extend([1, 2, 3])
+                    try:
+                        if api == 'setitem':
+                            h['x'] = c
+                        elif api == 'byname':
+                            h.setComponentByName('x', c)
+                        else:
+                            h.setComponentByPosition(1, c)
+                        stored = True
+                    except (error.PyAsn1Error, KeyError, IndexError):
+                        stored = False
+                    except Exception as ex:  # noqa
+                        rep.fail('container-assign-leak-' + type(ex).__name__, '%s raised %s' % (api, ex), case)
+                        continue
+                    is_derived = (wname, W) in derived
+                    if stored and not is_derived:
+                        rep.fail('assignment-bypasses-constraint:container:%s' % state,
+                                 'a %s container of the wider type %s was stored in a SIZE (1..2) field via %s' % (state, wname, api), case)
+                    if not stored and is_derived and state != 'filled-3':
+                        rep.fail('derived-container-refused', 'a %s container of the derived type %s was refused via %s' % (state, wname, api), case)
+
+
 def check_huge(rep):
     """values the interpreter refuses to print (more than 4300 decimal digits): a violation is still refused, an admitted
     value still accepted, on every construction path"""
@@ -1446,6 +1492,7 @@ def run(rep, tier, seed):
     audit_sources(rep)
     known_finding_probes(rep)
     check_huge(rep)
+    check_fresh_container_assignment(rep)
     op_constr(rep, drv, rng, 10000 * k, 12)
     op_chain(rep, drv, rng, 1500 * k)
     op_super_pairs(rep, drv, rng, 3000 * k)
